@@ -768,7 +768,7 @@ func Replay(p *Program, h *Harness, wit []witness, queryFile, repo, verif, outDi
 	}
 	os.WriteFile(ghostFile, []byte(ghostText), 0o644)
 	ov := map[string]map[string]string{"Replace": {
-		filepath.Join(repo, pkgDir, "zz_verif_replay_test.go"):   testFile,
+		filepath.Join(repo, pkgDir, "zz_verif_replay_test.go"):  testFile,
 		filepath.Join(repo, pkgDir, "verif_ghost_generated.go"): ghostFile,
 	}}
 	ovb, _ := json.Marshal(ov)
